@@ -12,6 +12,8 @@ if os.path.isdir(src):
     for f in ("patch.diff", "demo.py", "notes.md"):
         if f == "patch.diff" and os.path.exists(os.path.join(dst, "patch.orig.diff")):
             continue  # rebased by hand onto a later fix: keep
+        if f == "demo.py" and os.path.exists(os.path.join(dst, "demo.orig.py")):
+            continue  # adapted by hand to a later fix of /repo: keep
         if os.path.exists(os.path.join(src, f)):
             shutil.copy(os.path.join(src, f), os.path.join(dst, f))
 p = subprocess.run([sys.executable, os.path.join(ROOT, "tools", "seedtest.py"), dst, "--props", props], stdout=subprocess.PIPE, stderr=subprocess.STDOUT)
